@@ -78,9 +78,15 @@ def gen_tables(rng, pf=None):
                     for j in range(k, min(n, k + run)):
                         rate[j] = level
                 k += run
+    xcols = ["x{}".format(j) for j in range(nx)]
+    if rng.random() < 0.4:
+        # feature names that are not in sorted order (the published column order is what an observation follows)
+        names = ["momentum", "carry", "value", "b", "a", "f10", "f2", "Z", "size", "vol", "quality", "beta"]
+        rng.shuffle(names)
+        xcols = names[:nx] if nx <= len(names) else xcols
     return {
         "dates": [core.iso(d) for d in dates], "x_rows": xi, "X": [X[j] for j in xi], "Y": Y, "rate": rate,
-        "xcols": ["x{}".format(j) for j in range(nx)], "ycols": ["y{}".format(j) for j in range(ny)], "faults": faults, "freq": freq,
+        "xcols": xcols, "ycols": ["y{}".format(j) for j in range(ny)], "faults": faults, "freq": freq,
     }
 
 
